@@ -129,8 +129,9 @@ theorem angular_power_nonincreasing (P : FourierPair μ) {e : ι → μ} (he : F
   power_nonincreasing P he
     (fun m => norm_meanOver_le_one (S m) _ fun s _ => angularD_norm_le_one k z (κ2 m s)) x
 
-/-- Unrepaired code: the same holds as long as no evanescent wave is sampled or `z ≥ 0`. -/
-theorem angularDOld_norm_le_one {k z κ2 : ℝ} (h : κ2 ≤ k ^ 2 ∨ 0 ≤ z) : ‖angularDOld k z κ2‖ ≤ 1 := by
+/-- Unrepaired code (namespace `Old`: documentation of finding D30, the code no longer exists in /repo — not evidence
+for the property): the same holds as long as no evanescent wave is sampled or `z ≥ 0`. -/
+theorem Old.angularDOld_norm_le_one {k z κ2 : ℝ} (h : κ2 ≤ k ^ 2 ∨ 0 ≤ z) : ‖angularDOld k z κ2‖ ≤ 1 := by
   by_cases hp : κ2 ≤ k ^ 2
   · rw [angularDOld_of_propagating hp, Complex.norm_exp_ofReal_mul_I]
   · have hz : 0 ≤ z := h.resolve_left hp
@@ -140,7 +141,7 @@ theorem angularDOld_norm_le_one {k z κ2 : ℝ} (h : κ2 ≤ k ^ 2 ∨ 0 ≤ z) 
 
 /-- **Counterexample for the unrepaired code (finding D30).** An evanescent component propagated by a
 negative distance is amplified: the transfer function has modulus `> 1`. -/
-theorem angularDOld_evanescent_grows {k z κ2 : ℝ} (h : k ^ 2 < κ2) (hz : z < 0) :
+theorem Old.angularDOld_evanescent_grows {k z κ2 : ℝ} (h : k ^ 2 < κ2) (hz : z < 0) :
     1 < ‖angularDOld k z κ2‖ := by
   rw [angularDOld_of_evanescent (not_le.mpr h), Complex.norm_exp_ofReal, Real.one_lt_exp_iff]
   have : 0 < Real.sqrt (κ2 - k ^ 2) := Real.sqrt_pos.mpr (by linarith)
@@ -168,14 +169,14 @@ theorem angular_neg_z (k z κ2 : ℝ) : angularD k (-z) κ2 = conj (angularD k z
       Complex.conj_ofReal]
 
 /-- Angular spectrum, unrepaired code: `D_{-z} = conj D_z` where `k_z` is real. -/
-theorem angularOld_neg_z_of_propagating {k z κ2 : ℝ} (h : κ2 ≤ k ^ 2) :
+theorem Old.angularOld_neg_z_of_propagating {k z κ2 : ℝ} (h : κ2 ≤ k ^ 2) :
     angularDOld k (-z) κ2 = conj (angularDOld k z κ2) := by
   rw [angularDOld_of_propagating h, angularDOld_of_propagating h, conj_exp_ofReal_mul_I]
   congr 3; ring
 
 /-- …and fails where it is not: for an evanescent component and `z ≠ 0` the unrepaired transfer function
 of `-z` differs from the conjugate of that of `+z` (finding D30). -/
-theorem angularOld_neg_z_fails_of_evanescent {k z κ2 : ℝ} (h : k ^ 2 < κ2) (hz : z ≠ 0) :
+theorem Old.angularOld_neg_z_fails_of_evanescent {k z κ2 : ℝ} (h : k ^ 2 < κ2) (hz : z ≠ 0) :
     angularDOld k (-z) κ2 ≠ conj (angularDOld k z κ2) := by
   have hs : 0 < Real.sqrt (κ2 - k ^ 2) := Real.sqrt_pos.mpr (by linarith)
   rw [angularDOld_of_evanescent (not_le.mpr h), angularDOld_of_evanescent (not_le.mpr h),
